@@ -329,6 +329,26 @@ Proof.
   specialize (Hr v eq_refl). unfold node_is_dir in Hr. rewrite Es in Hr. discriminate.
 Qed.
 
+(* ---- node kinds are kept by the specification's removal --------------------------------------------------------------------------- *)
+Lemma nkind_delete_node (h : heap) (c i : nat) : nkind (get (delete_node h c) i) = nkind (get h i).
+Proof. rewrite get_delete_node_eq. destruct (Nat.eqb_spec i c) as [-> |_]; [apply nkind_deleted|reflexivity]. Qed.
+
+Lemma nkind_remove_child (h : heap) (p : nat) (n : str) (i : nat) : nkind (get (remove_child h p n) i) = nkind (get h i).
+Proof.
+  rewrite get_remove_child_eq. destruct (Nat.eqb_spec i p) as [-> |_]; [|reflexivity]. destruct (get h p) as [[| |]|]; reflexivity.
+Qed.
+
+Lemma nkind_release (h : heap) (c i : nat) : nkind (get (release h c) i) = nkind (get h i).
+Proof. destruct (release_cases h c) as [-> | ->]; [reflexivity|apply nkind_delete_node]. Qed.
+
+Lemma nkind_drop_tree : forall (f : nat) (h : heap) (c i : nat), nkind (get (drop_tree f h c) i) = nkind (get h i).
+Proof.
+  induction f as [|f IH]; intros h c i; [reflexivity|]. rewrite drop_tree_S.
+  destruct (get h c) as [[ch m|dt k id m|t m]|] eqn:Eg; [|apply nkind_release|apply nkind_release|reflexivity].
+  rewrite nkind_delete_node. clear Eg. revert h. induction ch as [|[n x] ch IHc]; intros h; [reflexivity|].
+  cbn [fold_left snd]. rewrite IHc. apply IH.
+Qed.
+
 (* ---- the removal of a non-empty directory [c], entry [cl] of [par] ------------------------------------------------------------------ *)
 Section Top.
   Variables (h : heap) (u : user) (par c : nat) (cl : str).
@@ -375,3 +395,190 @@ Section Top.
       + right. split; [exact Eq|]. intros d n Hin. exact (F d n Hin).
   Qed.
 End Top.
+
+(* ---- the calls ------------------------------------------------------------------------------------------------------------------------ *)
+Lemma remove_all_nonempty (s : fsys) (v : view) (path : str) :
+  path <> [] ->
+  remove_all s v path =
+    let r := search_node s v path SlLstat in
+    if is_not_exist (sr_err r) then (s, ROk)
+    else if negb (is_file_exists (sr_err r)) then (s, RFail (sr_err r))
+    else match sr_child r, sr_parent r with
+         | Some c, Some parent =>
+             let h := f_heap s in
+             let nonempty_dir := match get h c with Some (NDir (_ :: _) _) => true | _ => false end in
+             if Nat.eqb parent c then (s, RFail EInvalidArgument)
+             else
+               let '(h1, e1) := if nonempty_dir then remove_all_rec (S (length h)) h (v_user v) c else (h, None) in
+               match e1 with
+               | Some e => (with_heap s h1, RFail e)
+               | None =>
+                   if negb (perm_on h1 parent OpenWrite (v_user v)) then (with_heap s h1, RFail EPermDenied)
+                   else (with_heap s (delete_node (remove_child h1 parent (pi_part (sr_pi r))) c), ROk)
+               end
+         | _, _ => (s, RPanic)
+         end.
+Proof. destruct path; [congruence|reflexivity]. Qed.
+
+Lemma go_remove_all_nonempty (s : fsys) (sv : sview) (p : str) :
+  p <> [] ->
+  go_remove_all s sv p =
+    if ends_with_dot p then (s, SErr EINVAL)
+    else match go_remove s sv p with
+         | (s1, SOk) => (s1, SOk)
+         | (_, SErr e) =>
+             if N.eqb e ENOENT then (s, SOk)
+             else
+               match klookup s sv true false p with
+               | WParent par LNorm name _ =>
+                   let h := f_heap s in
+                   match alookup str_eqb name (children h par) with
+                   | Some c =>
+                       if node_is_dir h c
+                       then (with_heap s (drop_tree (S (length h)) (remove_child h par name) c), SOk)
+                       else (s, SErr e)
+                   | None => (s, SErr e)
+                   end
+               | _ => (s, SErr e)
+               end
+         | (_, r) => (s, r)
+         end.
+Proof. destruct p; [congruence|reflexivity]. Qed.
+
+Lemma ends_with_dot_name (w : list str) (cl : str) : good_comp cl -> ends_with_dot (abs_path (w ++ [cl])) = false.
+Proof.
+  intros (Hne & Hns & Hd & _). unfold ends_with_dot.
+  assert (E : abs_path (w ++ [cl]) = rpath w ++ SLASH :: cl).
+  { rewrite abs_path_rpath by (destruct w; discriminate). rewrite rpath_app. cbn [rpath]. rewrite app_nil_r. reflexivity. }
+  rewrite E, rev_app_distr. cbn [rev]. rewrite <- app_assoc. cbn [app].
+  destruct (rev cl) as [|d [|c r]] eqn:Er.
+  - exfalso. apply Hne. rewrite <- (rev_involutive cl), Er. reflexivity.
+  - cbn [app]. assert (Ecl : cl = [d]) by (rewrite <- (rev_involutive cl), Er; reflexivity).
+    destruct (N.eqb_spec d DOT) as [-> |_]; [congruence|reflexivity].
+  - cbn [app]. assert (Hc : In c cl) by (apply in_rev; rewrite Er; right; left; reflexivity).
+    destruct (N.eqb_spec c SLASH) as [Ec|_]; [exfalso; exact (Hns c Hc Ec)|apply Bool.andb_false_r].
+Qed.
+
+Ltac kinds_tac :=
+  intros ?i; try change (N.eqb ENOTEMPTY ENOENT) with false; cbv iota; cbn [fst f_heap with_heap];
+  rewrite ?nkind_drop_tree, ?nkind_delete_node, ?nkind_remove_child; reflexivity.
+
+Theorem step_remove_all (s : fsys) (sv : sview) (w : list str) (cl : str) :
+  step_hyps s sv -> Inv_heap (f_heap s) -> sym_single (f_heap s) -> path_ok s sv SlLstat (w ++ [cl]) ->
+  let p := abs_path (w ++ [cl]) in
+  proj_res Linux (snd (remove_all s (sv_view sv) p)) = snd (go_remove_all s sv p)
+  /\ fsys_geq (fst (remove_all s (sv_view sv) p)) (fst (go_remove_all s sv p))
+  /\ (forall i, nkind (get (f_heap (fst (go_remove_all s sv p))) i) = nkind (get (f_heap s) i)).
+Proof.
+  intros H Hinv Hss Hp p. pose proof (resolve s sv SlLstat (w ++ [cl]) H Hp) as R.
+  destruct Hp as (Hg & Hk1 & Hnf). change (follow_of SlLstat) with false in R, Hk1. change (precise_of SlLstat) with true in R.
+  destruct (klookup_pm s sv false w cl Hg Hk1) as (Hkn & Hkg & Hpm).
+  assert (Hgcl : good_comp cl) by (apply Forall_app in Hg as (_ & Hg); exact (Forall_inv Hg)).
+  unfold p. rewrite (remove_all_nonempty s (sv_view sv) _ (abs_path_nonempty _)).
+  rewrite (go_remove_all_nonempty s sv _ (abs_path_nonempty _)), (ends_with_dot_name w cl Hgcl). cbv zeta.
+  unfold go_remove, k_unlink, k_rmdir. rewrite Hpm.
+  pose proof (klookup_final s sv false (w ++ [cl]) Hg) as Hfin.
+  destruct (klookup s sv false false (abs_path (w ++ [cl]))) as [par kind name n|par name md| |e] eqn:HK; cbn [walk_rel] in R.
+  - destruct (Hkn _ _ _ _ eq_refl) as (-> & ->). destruct Hfin as (F1 & F2 & _).
+    destruct R as (R1 & R2 & R3 & _ & _ & R4). destruct (R4 eq_refl) as (R5 & R6).
+    destruct (at_name_views _ _ _ _ _ _ (R6 eq_refl)) as (V1 & _).
+    assert (Hvp : get (f_heap s) par <> None) by (apply node_is_dir_valid; exact F2).
+    assert (Hedge : In (cl, n) (children (f_heap s) par)) by (apply alookup_in; exact F1).
+    assert (Hne : n <> par).
+    { intros ->. apply (ww_acyclic _ (sh_wf _ _ H) par). exists par, cl. split; [constructor|exact Hedge]. }
+    rewrite R2, R5, R1, V1, F1. cbn [is_file_exists is_not_exist negb].
+    replace (Nat.eqb par n) with false by (symmetry; apply Nat.eqb_neq; congruence).
+    rewrite !(admin_may_delete s sv par n _ H Hvp).
+    destruct (get (f_heap s) n) as [[[|x ch] m|dt k i m|t m]|] eqn:Hgn; [| | | |congruence].
+    + (* an empty directory *)
+      assert (Hnd : node_is_dir (f_heap s) n = true) by (unfold node_is_dir; rewrite Hgn; reflexivity).
+      rewrite Hnd. unfold dir_nonempty. rewrite Hgn, (admin_perm_on s sv par _ H Hvp). cbn [negb fst snd].
+      split; [reflexivity|split; [apply fsys_geq_refl|kinds_tac]].
+    + (* a non-empty directory *)
+      assert (Hnd : node_is_dir (f_heap s) n = true) by (unfold node_is_dir; rewrite Hgn; reflexivity).
+      rewrite Hnd. unfold dir_nonempty. rewrite Hgn. change (N.eqb ENOTEMPTY ENOTDIR) with false.
+      change (N.eqb ENOTEMPTY ENOENT) with false. cbv iota.
+      destruct (top_sim (f_heap s) (v_user (sv_view sv)) par n cl (sh_admin _ _ H) (ww_acyclic _ (sh_wf _ _ H)) Hss
+                  (maxlen_heap (f_heap s) n Hinv) Hedge Hnd) as (hi' & -> & G & Fp).
+      assert (Hpo : perm_on hi' par OpenWrite (v_user (sv_view sv)) = true).
+      { unfold perm_on, check_permission. rewrite Fp. destruct (get (f_heap s) par); [|congruence].
+        rewrite (sh_admin _ _ H). reflexivity. }
+      rewrite Hpo. cbn [negb fst snd]. split; [reflexivity|]. split; [split; [exact G|split; reflexivity]|kinds_tac].
+    + assert (Hnd : node_is_dir (f_heap s) n = false) by (unfold node_is_dir; rewrite Hgn; reflexivity).
+      rewrite Hnd, (admin_perm_on s sv par _ H Hvp). cbn [negb fst snd].
+      rewrite (release_single _ par cl n Hss Hedge Hne). split; [reflexivity|split; [apply fsys_geq_refl|kinds_tac]].
+    + assert (Hnd : node_is_dir (f_heap s) n = false) by (unfold node_is_dir; rewrite Hgn; reflexivity).
+      rewrite Hnd, (admin_perm_on s sv par _ H Hvp). cbn [negb fst snd].
+      rewrite (release_single _ par cl n Hss Hedge Hne). split; [reflexivity|split; [apply fsys_geq_refl|kinds_tac]].
+  - pose proof (Hkg _ _ _ eq_refl) as ->. destruct Hfin as (F1 & _). destruct R as (R1 & R2 & _).
+    rewrite R1, F1. cbn [is_not_exist fst snd]. split; [reflexivity|split; [apply fsys_geq_refl|kinds_tac]].
+  - destruct R.
+  - destruct R as (R1 & _). destruct (werr_cases _ _ R1 Hnf) as (Hc & ->).
+    set (r := search_node s (sv_view sv) (abs_path (w ++ [cl])) SlLstat) in *.
+    destruct (sr_child r), (sr_parent r); destruct Hc as [Hc|[Hc|[Hc|Hc]]]; rewrite Hc;
+      (split; [reflexivity|split; [apply fsys_geq_refl|kinds_tac]]).
+Qed.
+
+(* ---- at the level of worlds ------------------------------------------------------------------------------------------------------------ *)
+Lemma wstep_remove_all (w : world) (vi : nat) (v : view) (p : str) :
+  nth_error (w_views w) vi = Some v -> wstep w (CRemoveAll vi p) = lift w (remove_all (w_fs w) v p).
+Proof. intros Hv. unfold wstep, on_view. rewrite Hv. reflexivity. Qed.
+
+Lemma spec_remove_all (sw : sworld) (vi : nat) (p : str) :
+  spec_step true sw (CRemoveAll vi p)
+  = ({| sw_fs := fst (go_remove_all (sw_fs sw) (sw_sv sw) p); sw_sv := sw_sv sw |}, snd (go_remove_all (sw_fs sw) (sw_sv sw) p)).
+Proof. reflexivity. Qed.
+
+Theorem step_world_remove_all (w : world) (vi : nat) (sw : sworld) (ww : list str) (cl : str) :
+  absw w vi sw -> step_hyps (sw_fs sw) (sw_sv sw) -> Inv_heap (f_heap (sw_fs sw)) -> sym_single (f_heap (sw_fs sw)) ->
+  path_ok (sw_fs sw) (sw_sv sw) SlLstat (ww ++ [cl]) ->
+  let c := CRemoveAll vi (abs_path (ww ++ [cl])) in
+  snd (impl_step_proj w c) = snd (spec_step true sw c)
+  /\ fsys_geq (w_fs (fst (impl_step_proj w c))) (sw_fs (fst (spec_step true sw c)))
+  /\ sw_sv (fst (spec_step true sw c)) = sw_sv sw
+  /\ snapshot (fst (impl_step_proj w c)) vi = snapshot (with_fs w (sw_fs (fst (spec_step true sw c)))) vi.
+Proof.
+  intros Ha H Hinv Hss Hp c. pose proof Ha as (Hfs & Hv).
+  destruct (step_remove_all (sw_fs sw) (sw_sv sw) ww cl H Hinv Hss Hp) as (E1 & E2 & E3).
+  assert (Ei : impl_step_proj w c = (with_fs w (fst (remove_all (w_fs w) (sv_view (sw_sv sw)) (abs_path (ww ++ [cl])))),
+                                    proj_res Linux (snd (remove_all (w_fs w) (sv_view (sw_sv sw)) (abs_path (ww ++ [cl])))))).
+  { apply (impl_lift w _ _ (wstep_remove_all w vi _ _ Hv)); [left; discriminate|exact I]. }
+  rewrite Ei. unfold c. rewrite spec_remove_all, <- Hfs. cbn [fst snd sw_fs sw_sv w_fs with_fs].
+  split; [exact E1|]. split; [exact E2|]. split; [reflexivity|].
+  apply geq_snapshot; cbn [w_fs w_views with_fs]; [exact (proj1 E2)|reflexivity|].
+  intros v Hv'. rewrite Hv in Hv'. injection Hv' as <-.
+  pose proof (sh_root _ _ H) as Hr. unfold node_is_dir in *.
+  specialize (E3 (v_root (sv_view (sw_sv sw)))).
+  destruct (get (f_heap (sw_fs sw)) (v_root (sv_view (sw_sv sw)))) as [[| |]|]; try discriminate.
+  destruct (get _ (v_root (sv_view (sw_sv sw)))) as [[| |]|]; cbn [nkind] in E3; try discriminate. reflexivity.
+Qed.
+
+(* ---- walks do not see the difference --------------------------------------------------------------------------------------------------- *)
+Theorem search_loop_geq (hi hs : heap) (v : view) (slm : slmode) : geq hi hs ->
+  forall f vol p pi sl saved, get hi vol = get hs vol -> get hi p = get hs p ->
+  search_loop f hi v slm vol p pi sl saved = search_loop f hs v slm vol p pi sl saved.
+Proof.
+  intros G. induction f as [|f IH]; intros vol p pi sl saved Ev Ep; [reflexivity|].
+  rewrite !search_loop_S. destruct (pi_next (v_os v) pi) as [ok pi1]. destruct (negb ok); [reflexivity|]. cbv zeta.
+  assert (Erc : root_check hi v vol p = root_check hs v vol p) by (unfold root_check; rewrite Ep; reflexivity).
+  rewrite Erc. destruct (root_check hs v vol p); [reflexivity|].
+  rewrite (children_of_get hs hi p Ep).
+  destruct (alookup str_eqb (pi_part pi1) (children hs p)) as [c|] eqn:El; [|reflexivity].
+  assert (Ec : get hi c = get hs c).
+  { destruct (G c) as [E|(_ & F)]; [exact E|]. exfalso. apply (F p (pi_part pi1)). apply alookup_in. exact El. }
+  rewrite Ec. destruct (get hs c) as [[ch m|d k id m|t m]|] eqn:Egs; try reflexivity.
+  - destruct (pi_is_last pi1); [reflexivity|]. destruct (check_permission m OpenLookup (v_user v)); [|reflexivity].
+    apply IH; [assumption|congruence].
+  - destruct (pi_is_last pi1 && slmode_eqb slm SlLstat); [reflexivity|].
+    destruct (Nat.ltb slCountMax (S sl)); [reflexivity|]. destruct (pi_replace_part (v_os v) pi1 t) as [reset pi2].
+    destruct reset; apply IH; assumption.
+Qed.
+
+Corollary search_node_geq (si ss : fsys) (v : view) (p : str) (slm : slmode) :
+  fsys_geq si ss -> f_vols ss = [] -> get (f_heap si) (v_root v) = get (f_heap ss) (v_root v) ->
+  search_node si v p slm = search_node ss v p slm.
+Proof.
+  intros (G & _ & Hv) Hnv Er. unfold search_node. rewrite Hv, Hnv.
+  destruct (Nat.ltb 0 (pi_vnl (pi_new (v_os v) (abs (v_os v) (v_cwd v) p)))); [cbn [alookup]; reflexivity|].
+  apply search_loop_geq; assumption.
+Qed.
